@@ -22,10 +22,18 @@ abbrev SErr := Err × World
 
 /-- `Assignment(ops=…, cpu=…, ram=…, priority=…, pool_id=…)` -/
 def mkA (w : World) (ops : List Nat) (cpu ram prio pool : Nat) : Except SErr (World × Asg) :=
-  let a : Asg := { ops := ops, cpu := cpu, ram := ram, prio := prio, pool := pool }
-  match w.mkAssignment a with
+  match w.mkAssignment { ops := ops, cpu := cpu, ram := ram, prio := prio, pool := pool } with
   | .error e => .error e
-  | .ok w' => .ok (w', a)
+  | .ok w' => .ok (w', { ops := ops, cpu := cpu, ram := ram, prio := prio, pool := pool })
+
+theorem mkA_ok {w w' : World} {ops : List Nat} {cpu ram prio pool : Nat} {a : Asg} (h : mkA w ops cpu ram prio pool = .ok (w', a)) :
+    a = { ops := ops, cpu := cpu, ram := ram, prio := prio, pool := pool } ∧ w.mkAssignment a = .ok w' := by
+  unfold mkA at h
+  split at h
+  · cases h
+  · rename_i w1 hw
+    cases h
+    exact ⟨rfl, hw⟩
 
 /-- `RetryStats` -/
 structure Retry where
